@@ -38,6 +38,15 @@ map_size = z3.Function("map_size", z3.IntSort(), z3.IntSort())
 deque_maxlen = z3.Function("deque_maxlen", z3.IntSort(), z3.IntSort())  # -1: unbounded
 
 
+def dict_content(st, addr):
+    """(map, domain) of the Python dict object at ``addr`` in state ``st`` (mutable: kept in st.aux)."""
+    if "pdm" not in st.aux:
+        st.aux["pdm"] = z3.Const("pdm0", z3.ArraySort(z3.IntSort(), z3.ArraySort(V.Val, V.Val)))
+    if "pdd" not in st.aux:
+        st.aux["pdd"] = z3.Const("pdd0", z3.ArraySort(z3.IntSort(), z3.ArraySort(V.Val, z3.BoolSort())))
+    return z3.Select(st.aux["pdm"], addr), z3.Select(st.aux["pdd"], addr)
+
+
 def deque_history(st, addr):
     """(items, count): everything ever appended to the deque at ``addr`` in state ``st`` (kept in st.aux)."""
     if "dqv" not in st.aux:
@@ -914,6 +923,48 @@ def install(eng):
         kk = z3.Const(V.fresh_name("k"), V.Val)
         st.sets = z3.Store(st.sets, V.Val.a(self.t), z3.SetUnion(a, b))
         yield st, None
+
+    # ------------------------------------------------------------------ Python dict objects held in fields / containers
+    # (a dict *value* with symbolic identity: content in st.aux; keys are compared by key_norm, as for maps)
+    def pd_get(st, a):
+        return dict_content(st, a)
+
+    @mm(dict, "__getitem__")
+    def pd_getitem(eng, st, args, kw):
+        self, k = args
+        if not isinstance(self, SV):
+            raise Unsupported("dict model: concrete dict with symbolic key")
+        m, d = pd_get(st, V.Val.a(self.t))
+        kt = knorm(eng, st, k)
+        for st1, present in eng.branch(z3.Select(d, kt), st):
+            if present:
+                r = z3.Select(m, kt)
+                st1.assume(eng.external_ref_fact(st1, r))
+                yield st1, SV(r)
+            else:
+                yield st1, Raise(Exc(KeyError, ()))
+
+    @mm(dict, "__setitem__")
+    def pd_setitem(eng, st, args, kw):
+        self, k, v = args
+        if not isinstance(self, SV):
+            raise Unsupported("dict model: store into a concrete dict")
+        a = V.Val.a(self.t)
+        m, d = pd_get(st, a)
+        kt, vt = knorm(eng, st, k), eng.lift(v, st)
+        eng.escape(st, kt)
+        eng.escape(st, vt)
+        st.aux["pdm"] = z3.Store(st.aux["pdm"], a, z3.Store(m, kt, vt))
+        st.aux["pdd"] = z3.Store(st.aux["pdd"], a, z3.Store(d, kt, True))
+        yield st, None
+
+    @mm(dict, "__contains__")
+    def pd_contains(eng, st, args, kw):
+        self, k = args
+        if not isinstance(self, SV):
+            raise Unsupported("dict model: concrete dict with symbolic key")
+        m, d = pd_get(st, V.Val.a(self.t))
+        yield st, SV(V.mk_bool(z3.Select(d, knorm(eng, st, k))))
 
     # ------------------------------------------------------------------ collections.deque (append / index / len only)
     # The *history* of everything appended is kept (st.aux: an array of items and a count per deque); a bounded
